@@ -33,7 +33,7 @@ VIEW_FUNCS = {
 # validation helpers: alias of their argument(s) unless copy=True literally
 VALIDATORS_1 = {"check_array", "column_or_1d", "as_float_array", "_check_sample_weight", "_check_normalize_sample_weight", "check_consistent_length", "_check_test_data", "_ensure_no_complex_data"}
 VALIDATORS_2 = {"check_X_y", "_check_X_y"}
-INPLACE_METHODS = {"sort", "fill", "partition", "put", "resize", "itemset", "setfield", "setflags", "byteswap"}
+INPLACE_METHODS = {"set_params", "sort", "fill", "partition", "put", "resize", "itemset", "setfield", "setflags", "byteswap"}
 CONTAINER_MUTATORS = {"append", "extend", "insert", "remove", "clear", "update", "setdefault", "reverse", "popitem", "add", "discard"}
 INPLACE_FUNCS_ARG0 = {"numpy.random.shuffle", "random.shuffle", "numpy.fill_diagonal", "numpy.put", "numpy.place", "numpy.copyto", "numpy.putmask", "numpy.put_along_axis", "numpy.add.at", "numpy.subtract.at", "numpy.multiply.at"}
 RNG_INPLACE_METHODS = {"shuffle"}  # <generator>.shuffle(x) permutes x in place
@@ -190,6 +190,11 @@ class Effects:
         if isinstance(e, ast.Name):
             return st.get(e.id, EMPTY)
         if isinstance(e, ast.Attribute):
+            if isinstance(e.value, ast.Name) and e.value.id in ("self", "cls"):
+                # the object stored in self.<attr>: whatever was assigned to it in this
+                # function (flow-sensitive) plus the attribute's own identity
+                key = "self." + e.attr
+                return st.get(key, EMPTY) | frozenset([key])
             if e.attr in VIEW_ATTRS:
                 return self.alias(e.value, st, fi)
             return EMPTY
@@ -380,6 +385,8 @@ class Effects:
             def bind_target(t, roots, value=None, pos_sets=None):
                 if isinstance(t, ast.Name):
                     new[t.id] = roots
+                elif isinstance(t, ast.Attribute) and isinstance(t.value, ast.Name) and t.value.id in ("self", "cls"):
+                    new["self." + t.attr] = frozenset(r for r in roots if r != "self." + t.attr)
                 elif isinstance(t, (ast.Tuple, ast.List)):
                     for i, e in enumerate(t.elts):
                         if pos_sets is not None and i < len(pos_sets) and not any(isinstance(x, ast.Starred) for x in t.elts):
@@ -546,7 +553,13 @@ class Effects:
             if s is not None and s.writes:
                 binding = self._bind(call, callee, fi)
                 for p, desc in s.writes.items():
-                    if p.startswith("free:"):
+                    if p.startswith("self."):
+                        # the callee writes an attribute object of ITS self; same object when called on our self
+                        ff = call.func
+                        on_self = isinstance(ff, ast.Attribute) and isinstance(ff.value, ast.Name) and ff.value.id in ("self", "cls")
+                        on_self = on_self or (call.args and isinstance(call.args[0], ast.Name) and call.args[0].id == "self")
+                        roots = frozenset([p]) if on_self else EMPTY
+                    elif p.startswith("free:"):
                         roots = st.get(p[5:], EMPTY)
                     elif p in binding:
                         roots = self.alias(binding[p], st, fi)
